@@ -465,7 +465,7 @@ def typed_local(e):
 class C03(Prop):
     id = "C03"
     title = "Compiled bytecode computes exactly what LPC semantics define"
-    lean_modules = ["NV.C03.Props", "NV.C03.Props2", "NV.C03.Props3", "NV.C03.Props4", "NV.C03.Props5", "NV.C03.Props6", "NV.C03.Props7", "NV.C03.Witness"]
+    lean_modules = ["NV.C03.Props", "NV.C03.Props2", "NV.C03.Props3", "NV.C03.Props4", "NV.C03.Props5", "NV.C03.Props6", "NV.C03.Props7", "NV.C03.Props8", "NV.C03.Props9", "NV.C03.Witness"]
     theorems = []          # filled below
     witness_theorems = []
     consts = [("oldRangeBehavior", "NV_OLD_RANGE"), ("switchCaseSize", "SWITCH_CASE_SIZE"),
@@ -489,9 +489,12 @@ class C03(Prop):
     level_note = ("no compiler-correctness theorem for generate.c / icode.c (whole programs by correspondence only); reals are "
                   "abstract in the theorems (FloatOps) and IEEE doubles in the driver; identity/aliasing of arrays and "
                   "mappings, string switch tables (address order) and shift counts outside 0..63 are outside the model")
-    rule = ("cases = corpus + known-finding inputs + boundary list + seeded random programs from 12 families (binary/unary "
-            "operators, op=, ++/--, index, range, index/range/char lvalues, switch, loops, calls, macros, literals, "
-            "zero-comparison rewrites) over the boundary value set; each case has 2..9 sibling functions; a case is "
+    rule = ("cases = corpus + known-finding inputs + boundary list + seeded random cases from 18 families (binary/unary "
+            "operators, op=, ++/--, index, range, index/range/char lvalues, integer / nested / string switches, loops, local / "
+            "inherited / function-pointer calls, macros vs hand expansion, literals, zero-comparison rewrites, mapping algebra "
+            "around every growMap threshold, unit traces of the mapping table and of handle_define) over the boundary value set "
+            "(int64 extremes, mixed int/float, empty and multibyte strings, containers across hash-table thresholds); each "
+            "program has 2..12 sibling functions; 14 negative traces check the oracle on every run; a case is "
             "non-trivial when at least one function returns a value (not an error); distinct = distinct canonical trace")
     not_covered = ["aliasing / identity of arrays and mappings (== on containers, shared references)",
                    "string-label switch tables are modelled as equality lookup (the table is sorted by string address)",
@@ -527,9 +530,53 @@ class C03(Prop):
                 atoms.append("eqUpTo %s" % q.group(1))
                 continue
             raise X.TieBroken("guard:handle_define", "atom outside the guard grammar: `%s` in `%s`" % (at, cond))
-        return ("\n/-- C (lib/lpc/lex.c handle_define): a body identifier of length `idlen` is replaced by parameter n iff\n"
+        guards = self.gen_index_guards(X)
+        return guards + ("\n/-- C (lib/lpc/lex.c handle_define): a body identifier of length `idlen` is replaced by parameter n iff\n"
                 "    `%s`  (l = strlen (args[n]); `eqUpTo k` = strncmp (args[n], ids, k) == 0) -/\n"
                 "def macroParamMatch (l idlen : Nat) (eqUpTo : Nat → Bool) : Bool := %s\n" % (cond.replace("-/", "- /"), " && ".join(atoms)))
+
+    def gen_index_guards(self, X):
+        """T4: the bounds tests of F_INDEX (src/interpret.c) for buffers, strings and arrays, transcribed from the source
+        (operators included) into `NV.Gen.C03.indexGuard*`; Props9.lean proves that they are the tests of `LpcOps.index`"""
+        import re
+        src = open(os.path.join(E.REPO, "src/interpret.c")).read()
+        m = re.search(r"case F_INDEX:(.*?)case F_RINDEX:", src, re.S)
+        if not m:
+            raise X.TieBroken("guard:F_INDEX", "case F_INDEX not found in src/interpret.c")
+        blk = m.group(1)
+        want = {"Buf": "Buffer index out of bounds", "Str": "String index out of bounds",
+                "ArrNeg": "Array index must be positive or zero", "ArrHigh": "Array index out of bounds"}
+        out = []
+        for name, msg in want.items():
+            g = re.search(r"if \(((?:[^;{}])*?)\)\s*error \(\"\*%s" % re.escape(msg), blk, re.S)
+            if not g:
+                raise X.TieBroken("guard:F_INDEX", "test in front of error \"%s\" not found" % msg)
+            cond = " ".join(g.group(1).split())
+            atoms = []
+            for at in cond.split("||"):
+                at = at.strip()
+                while at.startswith("(") and at.endswith(")") and at.count("(") - 1 >= 0 and self._balanced(at[1:-1]):
+                    at = at[1:-1].strip()
+                q = re.fullmatch(r"\(sp - 1\)->u\.number (<|<=|>|>=) (0|\(int64_t\)sp->u\.buf->size|\(int64_t\)SVALUE_STRLEN \(sp\)|arr->size)", at)
+                if not q:
+                    raise X.TieBroken("guard:F_INDEX", "atom outside the guard grammar: `%s` in `%s`" % (at, cond))
+                op = {"<": "<", "<=": "≤", ">": ">", ">=": "≥"}[q.group(1)]
+                atoms.append("decide (n %s %s)" % (op, "0" if q.group(2) == "0" else "size"))
+            out.append("/-- C (src/interpret.c F_INDEX): `%s` raises \"%s\" (n = the 64-bit index, size = number of elements) -/\n"
+                       "def indexGuard%s (n size : Int) : Bool := %s\n" % (cond.replace("-/", "- /"), msg, name, " || ".join(atoms)))
+        return "\n" + "\n".join(out)
+
+    @staticmethod
+    def _balanced(t):
+        d = 0
+        for ch in t:
+            if ch == "(":
+                d += 1
+            elif ch == ")":
+                d -= 1
+                if d < 0:
+                    return False
+        return d == 0
 
     def prepare(self, ctx):
         self.exe = E.compile_harness("c03", [os.path.join(E.VERIF, "harness/c03/c03.c")], kind="c03")
@@ -547,6 +594,38 @@ class C03(Prop):
         for k in range(0, len(cases), 200):
             out.update(E.run_harness(self.exe, self.conf, cases[k:k + 200], ctx.rundir, args=["--timeout", "20"]))
         return out
+
+    def extra_checks(self, ctx, tier, rng):
+        """oracle audit on every run: NEGATIVE traces - the judge must reject each of them with the expected verdict"""
+        ok_case = make_case("neg", [[("ret", ("bin", "add", I(1), I(2)))], [("expr", ("asg", L(A), I(1))), ("ret", ("bin", "add", L(A), I(2)))]])
+        sib_case = make_case("neg", [[("ret", I(1))], [("ret", I(2))]], same=[[0, 1]])
+        neg = [
+            ("wrong-value", ok_case.lines, ["r 0 4", "r 1 3"], "bad spec-mismatch why=unexplained fn=t0 impl=4 spec=3"),
+            ("error-instead-of-value", ok_case.lines, ["r 0 3", "r 1 !err"], "bad spec-mismatch why=unexplained fn=t1 impl=!err spec=3"),
+            ("missing-result", ok_case.lines, ["r 0 3"], "bad missing-result fn=t1"),
+            ("crash", ok_case.lines, ["r 0 3", "crash signal 11"], "bad impl-crash crash signal 11"),
+            ("compile-fail", ok_case.lines, ["compile-fail"], "bad impl-crash compile-fail"),
+            ("float-for-int", ok_case.lines, ["r 0 f:4008000000000000", "r 1 3"], "bad spec-mismatch why=unexplained fn=t0"),
+            ("siblings-differ", sib_case.lines, ["r 0 1", "r 1 2"], "bad spec-siblings-differ"),
+            ("finding-needs-model-agreement", make_case("neg", [[("expr", ("asg", L(A), I(1))), ("expr", ("aop", "add", L(A), Fl(1.5))), ("ret", L(A))]]).lines,
+             ["r 0 7"], "why=unexplained"),       # a known-finding program with a value the model of the code does not produce
+            ("maptrace-bucket", ["maptrace ai:16:1"], ["T ai:16:1 size=8 unfilled=5 count=1 0:[16]"], "bad maptrace-bucket"),
+            ("maptrace-count", ["maptrace ai:16:1"], ["T ai:16:1 size=8 unfilled=5 count=2 1:[16]"], "bad maptrace-count"),
+            ("maptrace-duplicate", ["maptrace ai:16:1"], ["T ai:16:1 size=8 unfilled=5 count=2 1:[16,16]"], "bad maptrace-duplicate"),
+            ("maptrace-crash", ["maptrace ai:16:1"], ["sanitizer ERROR: AddressSanitizer: SEGV", "crash exit 1"], "bad impl-crash"),
+            ("macro-body-prefix", ["mdef PICK(ab, a) (a)"], ["D PICK nargs=2 exps=202028404129"], "bad macro-body"),
+            ("macro-body-missing", ["mdef PICK(ab, a) (a)"], [], "bad macro-body missing dump"),
+        ]
+        cases = [E.Case("n%d" % k, lines + ["--"] + impl) for k, (_, lines, impl, _) in enumerate(neg)]
+        out = E.nvdrive(self.id, "judge", E.cases_text(cases))
+        problems = []
+        for k, (name, _, _, want) in enumerate(neg):
+            got = out.get("n%d" % k, [])
+            if not any(want in v for v in got):
+                problems.append({"kind": "oracle-broken", "name": "judge accepts negative trace `%s`" % name,
+                                 "detail": "expected a verdict containing %r, got %r" % (want, got[:3])})
+        self.neg_examples = len(neg)
+        return problems
 
     def nontrivial_key(self, case, out):
         vals = [l for l in out if l.startswith("r ") and not l.endswith("!err") and not l.endswith("!nofn")]
@@ -780,7 +859,39 @@ class C03(Prop):
         return make_case(cid, fns, meta={"origin": "generated", "family": "lvalue"})
 
     def fam_switch(self, rng, cid):
-        kind = rng.weighted([("direct", 3), ("sparse", 3), ("ranges", 3), ("big", 3), ("strings", 2), ("fall", 2)])
+        kind = rng.weighted([("direct", 3), ("sparse", 3), ("ranges", 3), ("big", 3), ("strings", 2), ("fall", 2), ("nested", 3)])
+        if kind == "nested":
+            # a switch inside an arm of another switch (the compiler's case stack is shared), labels overlap on purpose
+            ok = sorted(set(rng.choice([0, 1, 2, 3, 5, 9, 100, 2 ** 32]) for _ in range(rng.range(2, 4))))
+            ik = sorted(set(rng.choice([0, 1, 2, 3, 4, 7, 100, -1]) for _ in range(rng.range(2, 5))))
+            inner_at = rng.below(len(ok))
+            def inner(var):
+                return ("switch", var, [(("num", q), [("ret", I(100 + j))]) for j, q in enumerate(ik)] +
+                        ([("default", [("ret", I(199))])] if rng.chance(1, 2) else []))
+            hasd_in = None
+            fns, same = [], []
+            va, vb = I(rng.choice(ok + [7, -5])), I(rng.choice(ik + [6, 50]))
+            isw = inner(L(B))
+            has_in_default = any(a[0] == "default" for a in isw[2])
+            arms = []
+            for j, q in enumerate(ok):
+                body = [isw, ("ret", I(300 + j))] if j == inner_at else [("ret", I(10 + j))]
+                arms.append((("num", q), body))
+            arms.append(("default", [("ret", I(-1))]))
+            # if-chain
+            ichain = "nop"
+            for j, q in reversed(list(enumerate(ik))):
+                ichain = ("if", ("bin", "eq", L(B), I(q)), ("ret", I(100 + j)), ichain)
+            ibody = [ichain] + ([("ret", I(199))] if has_in_default else []) + [("ret", I(300 + inner_at))]
+            ochain = ("ret", I(-1))
+            for j, q in reversed(list(enumerate(ok))):
+                body = ("block", ibody) if j == inner_at else ("ret", I(10 + j))
+                ochain = ("if", ("bin", "eq", L(A), I(q)), body, ochain)
+            pre = [("expr", ("asg", L(A), va)), ("expr", ("asg", L(B), vb))]
+            fns = [pre + [("switch", L(A), arms), ("ret", I(0))], pre + [ochain, ("ret", I(0))],
+                   [("expr", ("asg", L(A), I(ok[inner_at]))), ("expr", ("asg", L(B), vb)), ("switch", L(A), arms), ("ret", I(0))],
+                   [("expr", ("asg", L(A), I(ok[inner_at]))), ("expr", ("asg", L(B), vb)), ochain, ("ret", I(0))]]
+            return make_case(cid, fns, same=[[0, 1], [2, 3]], meta={"origin": "generated", "family": "switch"})
         if kind == "strings":
             labs = [b"a", b"bb", b"", b"zed", b"q"]
             rng_labs = rng.shuffle(labs)[:rng.range(2, 5)]
@@ -1423,8 +1534,54 @@ class C03(Prop):
                 lines.append("mdef FN%d(%s)%s%s" % (m, sep.join(params), rng.choice(["", " ", "  "]), "".join(body)))
         return E.Case(cid, lines, {"origin": "generated", "family": "mdef"})
 
+    def fam_strswitch(self, rng, cid):
+        """string switches with and without `case 0:`; keys that are literals (interned by the compiler), interned by another
+        object (string literals of /c03/base.c, function names), built at run time (not in the shared string table), built at
+        run time but equal to a label, the empty string, ints; each next to its if-chain"""
+        pool = [b"a", b"bb", b"", b"zed", b"q", b"north", b"n", b"no", b"key_1", b"a\xc3\xa9", b"0", b"h_add"]
+        labs = rng.shuffle(pool)[:rng.range(1, 6)]
+        labels = [("str", l) for l in labs]
+        if rng.chance(3, 5):
+            labels.insert(rng.below(len(labels) + 1), ("num", 0))
+        arms = [(lab, [("ret", I(k + 1))]) for k, lab in enumerate(labels)]
+        hasd = rng.chance(2, 3)
+        if hasd:
+            arms.insert(rng.below(len(arms) + 1), ("default", [("ret", I(-1))]))
+        chain = "nop"
+        for lab, ss in reversed([a for a in arms if a[0] != "default"]):
+            cond = ("bin", "eq", L(A), S(lab[1])) if lab[0] == "str" else ("bin", "eq", L(A), I(0))
+            chain = ("if", cond, ss[0], chain)
+        tail = ([("ret", I(-1))] if hasd else []) + [("ret", I(0))]
+        fns, same = [], []
+        def add(setup, with_chain=True):
+            fns.append(setup + [("switch", L(A), arms), ("ret", I(0))])
+            if with_chain:
+                fns.append(setup + [chain] + tail)
+                same.append([len(fns) - 2, len(fns) - 1])
+        lab = rng.choice(labs)
+        # literal key equal to a label / equal to none
+        add([("expr", ("asg", L(A), S(lab)))])
+        add([("expr", ("asg", L(A), S(rng.choice([b"nope", b"zz", b"h_sum", b"create"]))))])
+        # built at run time, equal to no interned string (the counter makes it unique): findstring fails
+        add([("expr", ("asg", L(LI), I(rng.range(100, 999)))), ("expr", ("asg", L(A), ("bin", "add", S(b"rt_"), L(LI))))])
+        add([("expr", ("asg", L(B), S(b"x"))), ("expr", ("asg", L(A), ("bin", "add", ("bin", "add", L(B), L(B)), S(rng.choice([b"y7", b"_", b"q9"])))))])
+        # built at run time but equal to a label
+        if len(lab) >= 2:
+            add([("expr", ("asg", L(B), S(lab[:1]))), ("expr", ("asg", L(A), ("bin", "add", L(B), S(lab[1:]))))])
+        else:
+            add([("expr", ("asg", L(B), S(lab + b"#"))), ("expr", ("asg", L(A), ("rng", False, False, L(B), I(0), I(len(lab) - 1))))])
+        # equal to a string interned only by another object (a literal of the helper functions / a function name)
+        add([("expr", ("asg", L(B), S(b"le"))), ("expr", ("asg", L(A), ("bin", "add", L(B), S(b"n"))))])
+        # the empty string built at run time, the int 0, another int, a real
+        add([("expr", ("asg", L(B), S(b"ab"))), ("expr", ("asg", L(A), ("rng", False, False, L(B), I(1), I(0))))])
+        add([("expr", ("asg", L(A), I(0)))])
+        add([("expr", ("asg", L(A), I(rng.choice([1, -1, 2 ** 32]))))], with_chain=False)
+        add([("expr", ("asg", L(A), Fl(0.0)))], with_chain=False)
+        fns.append([("expr", ("asg", G(0), ("bin", "add", S(b"rt"), I(rng.range(1, 99))))), ("switch", G(0), arms), ("ret", I(0))])
+        return make_case(cid, fns, same=same, meta={"origin": "generated", "family": "strswitch"})
+
     FAMS = [("fam_binop", 9), ("fam_unop", 2), ("fam_incdec", 3), ("fam_index", 5), ("fam_range", 5), ("fam_lvalue", 6),
-            ("fam_switch", 6), ("fam_loop", 6), ("fam_assignop", 5), ("fam_literal", 2), ("fam_rewrite", 4), ("fam_macro", 3), ("fam_calls", 5), ("fam_mapalg", 7), ("fam_maptrace", 5), ("fam_macrosubst", 7), ("fam_mdef", 4)]
+            ("fam_switch", 6), ("fam_loop", 6), ("fam_assignop", 5), ("fam_literal", 2), ("fam_rewrite", 4), ("fam_macro", 3), ("fam_calls", 5), ("fam_mapalg", 7), ("fam_maptrace", 5), ("fam_macrosubst", 7), ("fam_mdef", 4), ("fam_strswitch", 6)]
 
     def generate(self, rng, n, tier):
         out = []
@@ -1504,6 +1661,11 @@ class C03(Prop):
         mk("macro-prefix-param", [[("expr", ("asg", L(A), I(3))), ("ret", Arr([("macro", "PICK", [I(10), I(20)], I(20)), ("macro", "SCALE", [I(5)], ("bin", "mul", L(A), I(5)))]))],
                                   [("expr", ("asg", L(A), I(3))), ("ret", Arr([I(20), ("bin", "mul", L(A), I(5))]))]],
            defines=["#define PICK(ab, a) (a)", "#define SCALE(a1) (a * (a1))"])
+        sarms = [(("str", b"a"), [("ret", I(1))]), (("num", 0), [("ret", I(2))]), ("default", [("ret", I(-1))])]
+        mk("strswitch-case0-runtime-key", [[("expr", ("asg", L(LI), I(7))), ("expr", ("asg", L(A), ("bin", "add", S(b"rt_"), L(LI)))), ("switch", L(A), sarms), ("ret", I(0))],
+                                           [("expr", ("asg", L(LI), I(7))), ("expr", ("asg", L(A), ("bin", "add", S(b"rt_"), L(LI)))),
+                                            ("if", ("bin", "eq", L(A), S(b"a")), ("ret", I(1)), ("if", ("bin", "eq", L(A), I(0)), ("ret", I(2)), "nop")), ("ret", I(-1))],
+                                           [("expr", ("asg", L(A), I(0))), ("switch", L(A), sarms), ("ret", I(0))]], same=[[0, 1]])
         mk("diveq-int-real-big", [[("expr", ("asg", L(A), I(2 ** 40))), ("expr", ("aop", "div", L(A), Fl(1.0))), ("ret", L(A))]])
         return Bc
 
@@ -1524,6 +1686,8 @@ PROP.theorems = ["NV.C03." + t for t in (
     "HT.mapping_lookup_after_insert", "HT.empty_refines",
     "Macro.macroParamMatch_iff", "Macro.matchParam_eq_paramOf", "Macro.specGo_eq", "Macro.scan_eq", "Macro.goRaw_blank",
     "Macro.macro_definition_agrees", "Macro.macro_expansion_agrees",
+    "index_guard_buf", "index_guard_str", "index_guard_arr",
+    "mem_sortEntries", "pairwise_sortEntries", "sortedT_of_pairwise", "mem_strEntries", "string_switch_agrees",
     "wrap_id", "wrap_range", "tdiv_range", "tmod_range", "idiv_eq", "imod_eq")]
 PROP.witness_theorems = ["NV.C03." + t for t in (
     "witness_num_opeq_real", "witness_addeq_num_str", "assignop_agrees_Full_false", "witness_buf_store_zero",
